@@ -133,7 +133,10 @@ func RunTLC(o TLCOpts) (*TLCResult, error) {
 	if o.Timeout == 0 {
 		o.Timeout = 10 * time.Minute
 	}
-	args := []string{"-XX:+UseParallelGC", "-Xss64m"}
+	// TLC makes a tlc-<n> directory under java.io.tmpdir on every run and leaves it behind
+	jtmp := filepath.Join(scratch, "jtmp")
+	_ = os.MkdirAll(jtmp, 0o755)
+	args := []string{"-XX:+UseParallelGC", "-Xss64m", "-Djava.io.tmpdir=" + jtmp}
 	if o.DFS {
 		args = append(args, "-Dtlc2.tool.queue.IStateQueue=StateDeque")
 	}
